@@ -107,12 +107,14 @@ def run_session(scn, sched, keep_sim=True, max_decisions=None, extra_setup=None)
     it = sched.get('interrupt')
     if it:
         interrupts.append(Interrupt(it['role'], it.get('index'), KeyboardInterrupt,
-                                    kind=it.get('kind'), n=it.get('n')))
+                                    kind=it.get('kind'), n=it.get('n'), anchor=it.get('anchor')))
     sim = Sim(policy, stalls=stalls, interrupts=interrupts,
               max_decisions=max_decisions or sched.get('max_decisions', 400_000),
               max_time=sched.get('max_time', 1e7),
               steps_after_fault=sched.get('steps_after_fault'),
               interrupt_on_hang='server' if sched.get('interrupt_on_hang') else None)
+    if sched.get('max_time'):
+        sim.hang_deadline = 0.6 * sched['max_time']
     import os as _os
     sim.trace_root = _os.path.join(_os.path.dirname(_os.path.abspath(
         mods['bridge_env'].__file__)), '')
